@@ -68,6 +68,14 @@ type c01Opt3 struct {
 	lateNs bool
 	// the first `fail` executions that carry a Synchronization (and no allowFailure binding) exit 1
 	fail int
+	// evRounds: after the Synchronization phase every LATER execution (Event / Group) is held as well. Per
+	// round: the cluster changes ([0]) until an execution is held — it has read its snapshots already —,
+	// then the cluster changes again ([1]) while that execution is still the running head of its queue,
+	// the harness waits until the events handler has turned the change into a task (or a bounded time,
+	// no verdict depends on it), and lets the execution go. Such a case ends QUIET: no sentinel object, no
+	// later change — an unrelated later event would refresh the snapshots of a group and hide a change
+	// that was never followed by a Group execution.
+	evRounds [][2][]c01Ev
 }
 
 type c01Ctx3 struct {
@@ -207,6 +215,7 @@ func c01OpRun3(c *Case, rng *Rng, binds []c01Bind3, opt c01Opt3, x0 []c01Ev, inj
 	_ = writeScript(filepath.Join(hooksDir, "hook.sh"), []byte(fmt.Sprintf(c01HookScript3, logDir)), 0o755)
 	_ = os.WriteFile(filepath.Join(logDir, "hold-all"), nil, 0o644)
 	fc := fake.NewFakeCluster(fake.ClusterVersionV121)
+	watchCount := c01CountWatches(fc)
 	nsThere := false
 	ensureNs := func() {
 		if nsThere {
@@ -222,10 +231,19 @@ func c01OpRun3(c *Case, rng *Rng, binds []c01Bind3, opt c01Opt3, x0 []c01Ev, inj
 		ensureNs()
 	}
 	truth := map[int]int{}
+	var settleNs func()
 	apply := func(es []c01Ev) bool {
-		if len(es) > 0 {
-			ensureNs() // lateNs: the first matching namespace appears together with its first objects
-		}
+		// lateNs: the first matching namespace appears together with its first objects. The objects are
+		// written first, then the Namespace, then the harness waits until the informers created for it
+		// have their watches: the fake cluster has no resource versions, a change made between the list
+		// and the watch of a new informer would be lost by the fake, not by the operator.
+		first := len(es) > 0 && !nsThere
+		defer func() {
+			if first {
+				ensureNs()
+				settleNs()
+			}
+		}()
 		for _, e := range es {
 			if err := c01OpObj(fc, ns, e); err != nil {
 				c.Inconcl = "cluster operation failed: " + err.Error()
@@ -261,6 +279,34 @@ func c01OpRun3(c *Case, rng *Rng, binds []c01Bind3, opt c01Opt3, x0 []c01Ev, inj
 	monOf := map[string]string{}
 	for _, kb := range hk.GetConfig().OnKubernetesEvents {
 		monOf[kb.BindingName] = kb.Monitor.Metadata.MonitorId
+	}
+	settleNs = func() {
+		stores := map[string]bool{}
+		for dl := time.Now().Add(5 * time.Second); time.Now().Before(dl); time.Sleep(2 * time.Millisecond) {
+			ok := true
+			for _, b := range binds {
+				mon := op.KubeEventsManager.GetMonitor(monOf[b.name])
+				if mon == nil {
+					continue
+				}
+				has := false
+				for _, inf := range kem.VerifC02Describe(mon) {
+					if inf.Namespace != ns {
+						continue
+					}
+					has = true
+					if !inf.Registered || inf.StoreID == "" {
+						ok = false
+						continue
+					}
+					stores[inf.StoreID] = true
+				}
+				ok = ok && has
+			}
+			if ok && watchCount(ns) >= len(stores) {
+				return
+			}
+		}
 	}
 	// state: does SOME informer of the binding pass events on (anyEn); is the whole binding unlocked —
 	// eventsEnabled set and every informer it has, static and per namespace, enabled (allEn); how many
@@ -479,6 +525,86 @@ func c01OpRun3(c *Case, rng *Rng, binds []c01Bind3, opt c01Opt3, x0 []c01Ev, inj
 		}
 		release(held.id, code)
 	}
+	quiet := len(opt.evRounds) > 0
+	if quiet {
+		// what was not used up while Synchronization runs were held happens now, before the held Event /
+		// Group executions: nothing may follow them
+		for ; injected < len(inject); injected++ {
+			if !apply(inject[injected]) {
+				return
+			}
+		}
+	}
+	qlen := func() int {
+		n := 0
+		for _, qn := range queues {
+			if q := op.TaskQueues.GetByName(qn); q != nil {
+				n += q.Length()
+			}
+		}
+		return n
+	}
+	heldNow := func() *c01Exec3 {
+		ex := c01ReadExecs3(logDir)
+		for i := range ex {
+			if ex[i].exit < 0 && !released[ex[i].id] {
+				return &ex[i]
+			}
+		}
+		return nil
+	}
+	for ri, round := range opt.evRounds {
+		// drain: nothing held, nothing running, queues empty — the next change meets an idle operator, its
+		// execution becomes the head (and, for one binding, the only task) of its queue
+		for dl := time.Now().Add(20 * time.Second); ; time.Sleep(3 * time.Millisecond) {
+			if time.Now().After(dl) {
+				c.Inconcl = "operator did not become idle between two held executions"
+				return
+			}
+			if h := heldNow(); h != nil {
+				release(h.id, "0")
+				continue
+			}
+			running := false
+			for _, e := range c01ReadExecs3(logDir) {
+				running = running || e.exit < 0
+			}
+			if !running && qlen() == 0 {
+				break
+			}
+		}
+		if !apply(round[0]) {
+			return
+		}
+		var held *c01Exec3
+		for dl := time.Now().Add(10 * time.Second); held == nil && time.Now().Before(dl); time.Sleep(3 * time.Millisecond) {
+			held = heldNow()
+		}
+		if held == nil {
+			// every binding that would have run the hook is stuck (never unlocked): nothing to hold
+			c.Note("op3:no-execution-to-hold")
+			break
+		}
+		// the held execution has its binding contexts and snapshots already (the context file is written by
+		// the hook process); let the tasks of the other bindings for the same change queue up behind it
+		time.Sleep(time.Duration(rng.Range(20, 60)) * time.Millisecond)
+		nQ, nE := qlen(), len(c01ReadExecs3(logDir))
+		if !apply(round[1]) {
+			return
+		}
+		c.Note("op3:change-while-a-later-execution-is-held")
+		if nQ == 1 {
+			c.Note("op3:change-while-the-held-execution-is-the-only-task")
+		}
+		_ = ri
+		for dl := time.Now().Add(1500 * time.Millisecond); time.Now().Before(dl); time.Sleep(3 * time.Millisecond) {
+			if qlen() > nQ || len(c01ReadExecs3(logDir)) > nE {
+				break
+			}
+		}
+		time.Sleep(time.Duration(rng.Range(10, 40)) * time.Millisecond)
+		release(held.id, "0")
+	}
 	_ = os.Remove(filepath.Join(logDir, "hold-all"))
 	// the verdict on the unlock: every Synchronization step is over (see above)
 	var unlockObs []string
@@ -499,13 +625,84 @@ func c01OpRun3(c *Case, rng *Rng, binds []c01Bind3, opt c01Opt3, x0 []c01Ev, inj
 			return
 		}
 	}
-	if !apply(after) || !apply([]c01Ev{{99, "a", 999}}) {
+	if !quiet && (!apply(after) || !apply([]c01Ev{{99, "a", 999}})) {
 		return
+	}
+	// cacheOk (quiet cases): the informers of every unlocked binding have caught up with the cluster.
+	// Never read the snapshot of a binding that is still locked (finding R3).
+	cacheOk := func() bool {
+		snaps := hk.HookController.KubernetesSnapshots()
+		for _, b := range binds {
+			if _, allEn, _ := state(b.name); !allEn {
+				continue
+			}
+			got := map[int]int{}
+			for _, o := range snaps[b.name] {
+				if o.Object != nil {
+					id, _ := strconv.Atoi(strings.TrimPrefix(o.Object.GetName(), "o"))
+					data, _, _ := unstructuredNestedString(o.Object.Object, "data", "v")
+					v, _ := strconv.Atoi(data)
+					got[id] = v
+				}
+			}
+			if c01StateStr(got) != c01StateStr(truth) {
+				return false
+			}
+		}
+		return true
+	}
+	// shown (quiet cases): what the hook has been given so far already accounts for the final state of
+	// every binding. If not, the quiet period is stretched: a verdict "never followed by an execution"
+	// must not be an event that was merely still on its way.
+	shown := func(ex []c01Exec3) bool {
+		for _, b := range binds {
+			if !b.execOnSync || opt.v0 {
+				continue
+			}
+			ok := false
+			var view map[int]int
+			var viewEnd int64
+			for _, e := range ex {
+				for _, cx := range e.ctxs {
+					if v, has := cx.snaps[b.name]; has && b.group != "" && c01StateStr(v) == c01StateStr(truth) {
+						ok = true
+					}
+					if b.group == "" && cx.binding == b.name && cx.typ == "Synchronization" && e.exit == 0 && view == nil {
+						view, viewEnd = cx.view, e.end
+					}
+				}
+			}
+			if b.group == "" {
+				got := map[int]int{}
+				for id, v := range view {
+					got[id] = v
+				}
+				for _, e := range ex {
+					if view == nil || e.start < viewEnd {
+						continue
+					}
+					for _, cx := range e.ctxs {
+						if cx.binding == b.name && cx.ev != nil {
+							if cx.ev.kind == "d" {
+								delete(got, cx.ev.id)
+							} else {
+								got[cx.ev.id] = cx.ev.cs
+							}
+						}
+					}
+				}
+				ok = c01StateStr(got) == c01StateStr(truth)
+			}
+			if !ok {
+				return false
+			}
+		}
+		return true
 	}
 	// rest: every binding has shown the sentinel object to the hook (a binding that stayed locked: has it
 	// in a buffer that nothing will ever replay), queues empty, nothing running
 	var execs []c01Exec3
-	stable := 0
+	stable, lost := 0, 0
 	deadline = time.Now().Add(60 * time.Second)
 	for {
 		if time.Now().After(deadline) {
@@ -542,7 +739,7 @@ func c01OpRun3(c *Case, rng *Rng, binds []c01Bind3, opt c01Opt3, x0 []c01Ev, inj
 		}
 		all := true
 		for _, b := range binds {
-			if seen[b.name] {
+			if seen[b.name] || quiet {
 				continue
 			}
 			if _, allEn, buf := state(b.name); stuck[b.name] && !allEn && buf > 0 {
@@ -552,12 +749,35 @@ func c01OpRun3(c *Case, rng *Rng, binds []c01Bind3, opt c01Opt3, x0 []c01Ev, inj
 		}
 		changed := len(ex) != len(execs)
 		execs = ex // always the latest reading: exit codes and end times of runs that were still going on
-		if !done || busy || !all || changed {
-			stable = 0
+		if !done || busy || changed || (quiet && !cacheOk()) {
+			stable, lost = 0, 0
 			continue
 		}
+		if !all {
+			// The sentinel has not been shown to some binding. Either it is still on its way — or it never
+			// will be: nothing runs, every queue is empty, the informers of every unlocked binding have
+			// cached it. A long quiet period in that state is taken as final (the oracles then say what is
+			// missing) instead of waiting for the watchdog.
+			stable = 0
+			if !cacheOk() {
+				lost = 0
+				continue
+			}
+			if lost++; lost < 400 {
+				continue
+			}
+			c.Note("op3:sentinel-never-shown")
+			break
+		}
 		stable++
-		if stable >= 8 {
+		need := 8
+		if quiet {
+			need = 80 // no marker available: a long quiet period instead
+			if !shown(execs) {
+				need = 400
+			}
+		}
+		if stable >= need {
 			break
 		}
 	}
@@ -727,7 +947,11 @@ func c01GenLayout3(rng *Rng, shape int) []c01Bind3 {
 //	10 namespace.labelSelector, no namespace at start, single binding with its own queue
 //	11 the same with a group + a single binding, own queues, first run fails
 //	12 two bindings of one group, the first with executeHookOnSynchronization: false; two failing runs
-const c01FixedShapes3 = 13
+//	13 one grouped binding (main queue), LATER executions held too (evRounds), quiet end
+//	14 one grouped binding with its own queue, the same
+//	15 two bindings of one group in the main queue, the same
+//	16 one grouped binding in the main queue + one ungrouped binding with its own queue, the same
+const c01FixedShapes3 = 17
 
 func runC01Operator3(r *Run) {
 	n := r.N(c01FixedShapes3+8, c01FixedShapes3+120)
@@ -735,6 +959,7 @@ func runC01Operator3(r *Run) {
 		shape := c.Idx - 850000
 		var opt c01Opt3
 		var binds []c01Bind3
+		hold := false // later (Event / Group) executions are held too, quiet end
 		opt.fail = []int{0, 0, 1, 2}[rng.Intn(4)]
 		switch shape {
 		case 6:
@@ -767,10 +992,24 @@ func runC01Operator3(r *Run) {
 			// binding whose Synchronization run fails twice: Events of the first one queue up behind it
 			opt.fail = 2
 			binds = []c01Bind3{{name: "b00", group: "gs", execOnSync: false}, {name: "b10", group: "gs", execOnSync: true}}
+		case 13, 14, 15, 16:
+			opt.fail = 0
+			hold = true
+			switch shape {
+			case 13:
+				binds = []c01Bind3{{name: "b00", group: "g0", execOnSync: true}}
+			case 14:
+				binds = []c01Bind3{{name: "b00", group: "g0", execOnSync: true, queue: "q00"}}
+			case 15:
+				binds = []c01Bind3{{name: "b00", group: "g0", execOnSync: true}, {name: "b01", group: "g0", execOnSync: true}}
+			case 16:
+				binds = []c01Bind3{{name: "b00", group: "g0", execOnSync: true}, {name: "b10", execOnSync: true, queue: "q10"}}
+			}
 		default:
 			lay := shape
 			if shape >= c01FixedShapes3 {
 				lay = 100
+				hold = rng.Chance(35)
 				switch {
 				case rng.Chance(15):
 					opt.v0 = true
@@ -796,7 +1035,18 @@ func runC01Operator3(r *Run) {
 		for i := 0; i < 3; i++ {
 			inject = append(inject, c01GenClusterOps(rng, live, &next, rng.Range(1, 2)))
 		}
+		liveBefore, nextBefore := map[int]int{}, next
+		for id, v := range live {
+			liveBefore[id] = v
+		}
 		after := c01GenClusterOps(rng, live, &next, rng.Range(0, 2))
+		if hold && !opt.v0 {
+			after, live, next = nil, liveBefore, nextBefore
+			for i := rng.Range(1, 2); i > 0; i-- {
+				first := c01GenClusterOps(rng, live, &next, 1)
+				opt.evRounds = append(opt.evRounds, [2][]c01Ev{first, c01GenClusterOps(rng, live, &next, rng.Range(1, 2))})
+			}
+		}
 		var ds []string
 		for _, b := range binds {
 			ds = append(ds, fmt.Sprintf("%s(group=%q allowFailure=%v execOnSync=%v queue=%q)", b.name, b.group, b.allowFailure, b.execOnSync, b.queue))
@@ -810,6 +1060,10 @@ func runC01Operator3(r *Run) {
 		}
 		c.Desc = fmt.Sprintf("operator, %s, bindings of one hook: %s; before=%s while-runs-are-held=%v after=%s failing-synchronizations=%d",
 			kind, strings.Join(ds, " "), c01Evs(x0), inject, c01Evs(after), opt.fail)
+		if len(opt.evRounds) > 0 {
+			c.Desc += fmt.Sprintf("; then per round [change -> its execution is held -> change while it is held -> released]: %v; quiet end (no sentinel)", opt.evRounds)
+			c.Note("operator-layout:later-executions-held")
+		}
 		c01OpRun3(c, rng, binds, opt, x0, inject, after, r.Scratch)
 		c.Nontrivial = true
 		c.Note("operator-layout")
